@@ -20,9 +20,11 @@ import (
 // Run is the engine entry point.
 func Run(c *hx.Ctx) {
 	partCopyLog(c)
+	partCopyFault(c)
 	partCompare(c)
 	partBig(c)
 	partBigSynth(c)
+	partBigFault(c)
 	partPairs(c)
 	partKnown(c)
 }
